@@ -80,6 +80,26 @@ Theorem fluctuation_table_has_one_row_per_replica_and_configuration :
   exists n c, In n (Obs.Derived.sample_names (u_obs ++ d_obs)) /\ In c (Obs.Derived.union_cfgs (u_obs ++ d_obs) n) /\ xs = table_row u_obs d_obs n c.
 Proof. exact fluct_table_rows. Qed.
 
+(* the same statements for the covariance-gradient table: one row per covariance input and component, enclosing the gradients exactly *)
+Theorem positive_verdict_implies_the_differentiated_equations_for_covariance_gradients :
+  forall (c : icase) (i : nat) (xs : list (dy * dy)) (xrs : list R),
+  ic_nv c = ic_nu c -> implicit_ok c = true -> (0 <= dR (fst (dexact (ic_rt c))))%R ->
+  (i < length (ic_eqs c))%nat ->
+  In xs (dcov_table (ic_uobs c) (ic_dobs c)) -> Forall2 enclx xs xrs ->
+  let l := (ic_uvals c ++ ic_dvals c)%list in
+  let eq := nth i (ic_eqs c) (EC 0%Q) in
+  let cols := seq 0 (ic_nu c + length (ic_dvals c)) in
+  let ds := map (dval l eq) cols in
+  (forall j, In j cols -> Xderive_pt (fun t => evalX (updX (qenvR l) j t) eq) (Xreal (qenvR l j)) (Xreal (dval l eq j)))
+  /\ exists scale, (Rabs (rsum ds xrs) <= dR (fst (dexact (ic_rt c))) * (rasum ds xrs + dR scale))%R.
+Proof. exact implicit_ok_sound_cov. Qed.
+
+Theorem covariance_table_rows_enclose_the_gradients :
+  forall (u_obs d_obs : list Obs.Model.obs) (n : String.string) (k : nat),
+  Forall2 enclx (map (fun o => dexact (covgrad_of o n k)) u_obs ++ map (fun o => dexact (covgrad_of o n k)) d_obs)
+          (map (fun o => Q2R (covgrad_of o n k)) u_obs ++ map (fun o => Q2R (covgrad_of o n k)) d_obs).
+Proof. exact cov_table_row_encloses. Qed.
+
 (* Non-vacuity: A * inv(A) = 1 for A = [[2, 1], [1, 1]], inv = [[1, -1], [-1, 2]]: the four identities hold at the central values *)
 Example c10_example :
   let eqs := [ESub (EAdd (EMul (EV 4) (EV 0)) (EMul (EV 5) (EV 2))) (EC 1%Q); EAdd (EMul (EV 4) (EV 1)) (EMul (EV 5) (EV 3));
